@@ -3,15 +3,84 @@ Registration of the classes modelled outside `Core.lean` (one line per class; th
 lives in `IsobarV/Pat/Cls/<Group>.lean`).
 -/
 import IsobarV.Pat.Step
+import IsobarV.Pat.Cls.Seq1
+import IsobarV.Pat.Cls.Seq2
+import IsobarV.Pat.Cls.Scalar
 
 namespace IsobarV.Pat
 
 def clsStepExt (c : Cls) : Option ClsStep :=
   match c with
+  | .series => some stepSeries
+  | .range => some stepRange
+  | .geom => some stepGeom
+  | .impulse => some stepImpulse
+  | .loop => some stepLoop
+  | .pingPong => some stepPingPong
+  | .stutter => some stepStutter
+  | .subsequence => some stepSubsequence
+  | .creep => some stepCreep
+  | .reverse => some stepReverse
+  | .pad => some stepPad
+  | .padToMultiple => some stepPadToMultiple
+  | .counter => some stepCounter
+  | .collapse => some stepCollapse
+  | .noRepeats => some stepNoRepeats
+  | .permut => some stepPermut
+  | .interpolate => some stepInterpolate
+  | .euclidean => some stepEuclidean
+  | .arpeggiator => some stepArpeggiator
+  | .changed => some (stepDelta changedVal)
+  | .diff => some (stepDelta diffVal)
+  | .skipIf => some stepSkipIf
+  | .normalise => some stepNormalise
+  | .map => some stepMap
+  | .mapEnumerated => some stepMapEnumerated
+  | .scaleLinLin => some stepScaleLinLin
+  | .scaleLinExp => some (stepScaleLinExp powApprox)
+  | .round => some stepRound
+  | .scalar => some stepScalar
+  | .wrap => some stepWrap
+  | .indexOf => some stepIndexOf
+  | .degree => some stepDegree
+  | .midiNoteToFrequency => some (stepMidi powApprox)
+  | .tri => some stepTri
+  | .saw => some stepSaw
+  | _ => Option.none
+
+/-- Classes whose `__next__` calls `reset()` on a sub-pattern: their step function receives the generic
+    `reset` of patterns (defined in `Run.lean`, after the own-state resets). -/
+def clsStepExtR (c : Cls) : Option ((Pat → Pat) → ClsStep) :=
+  match c with
+  | .reset => some stepResetW
   | _ => Option.none
 
 def clsResetExt (c : Cls) : Option (St → St) :=
   match c with
+  | .series => some resetSeries
+  | .range => some resetRange
+  | .geom => some resetGeom
+  | .impulse => some resetImpulse
+  | .loop => some resetLoop
+  | .pingPong => some resetPingPong
+  | .stutter => some resetStutter
+  | .subsequence => some resetSubsequence
+  | .creep => some resetCreep
+  | .reverse => some resetReverse
+  | .pad => some resetPad
+  | .padToMultiple => some resetPadToMultiple
+  | .counter => some resetCounter
+  | .noRepeats => some resetNoRepeats
+  | .permut => some resetPermut
+  | .interpolate => some resetInterpolate
+  | .euclidean => some resetEuclidean
+  | .arpeggiator => some resetArpeggiator
+  | .changed => some resetDelta
+  | .diff => some resetDelta
+  | .normalise => some resetNormalise
+  | .mapEnumerated => some resetMapEnumerated
+  | .tri => some resetOsc
+  | .saw => some resetOsc
   | _ => Option.none
 
 end IsobarV.Pat
